@@ -76,6 +76,11 @@ def handle(name, fields):
             pass
     if job is not None:
         rec["si"] = (job.state_index + 1) if getattr(job, "state_index", None) is not None else 1
+    if name in ("audit_started", "audit_finalized") and job is not None:
+        try:
+            rec["aid"] = getattr(job.audit, "aid", None)
+        except Exception:
+            rec["aid"] = None
     if "tasks" in fields:
         rec["tasks"] = [[t.name, (t.state_index + 1) if t.state_index is not None else 1] for t in fields["tasks"]]
     if "result" in fields:
